@@ -1847,7 +1847,9 @@ pub fn inject_malformed(rng: &mut Rng, h: &[Op], count: usize) -> (Vec<Op>, Vec<
         };
         let roll = if pos == 0 && rng.chance(1, 2) { 13 } else { rng.below(27) };
         // "differs from the open block" only means something while a block is open: move behind a transaction
-        let pos = if matches!(roll, 3 | 4 | 5) { (pos..out.len()).find(|p| *p > 0 && out[*p - 1].is_tx()).unwrap_or(pos) } else { pos };
+        // commit / reorg / mine "anywhere": two times out of three right behind a transaction (a block is open)
+        let behind_tx = matches!(roll, 3 | 4 | 5) || (matches!(roll, 10 | 11 | 12) && rng.chance(2, 3));
+        let pos = if behind_tx { (pos..out.len()).find(|p| *p > 0 && out[*p - 1].is_tx()).unwrap_or(pos) } else { pos };
         let (kind, op): (&'static str, Op) = match roll {
             0 => ("wrong_tx_idx_plus", { let mut o = near_tx.clone().unwrap_or_else(|| mk_call(Enc::Hex, Idx::Auto, ts, hash.clone(), fresh.clone())); o.set_idx(Idx::Off(1 + rng.below(3) as i64)); o }),
             1 => ("wrong_tx_idx_minus", mk_call(Enc::Hex, Idx::Off(-1), ts, hash.clone(), fresh.clone())),
